@@ -22,9 +22,24 @@ formatted value, direction, simulated flag, the METHOD_STATUS → interrupted_by
 `store_new_tag_info` (unit/type columns of the entry) are not modelled; a run is started at most once per run id
 (duplicated RunStartedMsg is C30's subject).  `Row.src` is a ghost field (the tick_time the value was reported
 with, before `_persist_tag_values` overwrites it with the batch time) used only in statements, never printed.
+
+Two incidental choices of the code are parameters of the model (`Policy`), so that the theorems hold for, and the
+harness can recognise, each of the variants: whether `TagsInfo.upsert` lets an older report overwrite a newer one
+(as the code does) or keeps the newer one; whether the threshold test is `>` (as the code does) or `>=`.
+`Op.reconnect` = `engine_disconnected` followed by the re-registration: the EngineData is deleted and a new one is
+created (empty tag map, no readings, interval inf); `_try_restore_reconnected_engine_data` restores the run id from
+the RecentEngines row, `latest_persisted_tick_time` starts at None again; the plot log and its entries stay.
 Core Lean only.
 -/
 namespace OPM.PlotPersist
+
+/-- incidental choices of the implementation (see the header); `asIs` is what /repo does -/
+structure Policy where
+  keepNewer : Bool := false     -- upsert ignores a report whose tick_time is older than the stored one
+  strict : Bool := true         -- threshold: `latest - persisted > interval` (true) or `>=` (false)
+deriving DecidableEq, Repr
+
+def asIs : Policy := {}
 
 structure TagVal where
   value : String
@@ -47,6 +62,7 @@ structure Row where
 deriving DecidableEq, Repr
 
 structure State where
+  pol : Policy := asIs
   tags : List (String × TagVal) := []
   run : Option (Nat × Option Rat) := none
   nextRun : Nat := 0
@@ -57,18 +73,23 @@ deriving Repr
 
 def init : State := {}
 
+/-- the initial state of an implementation variant -/
+def initWith (pol : Policy) : State := { pol := pol }
+
 def markName : String := "Mark"
 def emptyStr : String := "s:-"
 
-/-- `TagsInfo.upsert` (value and tick_time are overwritten unconditionally; position in the dict is kept). -/
-def upsert : List (String × TagVal) → Update → List (String × TagVal)
+/-- `TagsInfo.upsert` (as is: value and tick_time are overwritten unconditionally; position in the dict is kept). -/
+def upsert (pol : Policy) : List (String × TagVal) → Update → List (String × TagVal)
   | [], u => [(u.name, ⟨u.value, u.time⟩)]
   | (n, tv) :: rest, u =>
-    if n = u.name then (n, ⟨u.value, u.time⟩) :: rest else (n, tv) :: upsert rest u
+    if n = u.name then
+      (if pol.keepNewer && u.time < tv.time then (n, tv) else (n, ⟨u.value, u.time⟩)) :: rest
+    else (n, tv) :: upsert pol rest u
 
 /-- the `for changed_tag_value in changed_tag_values` loop: a Mark reset to "" is skipped, everything else upserted -/
-def applyUpdates (tags : List (String × TagVal)) (ups : List Update) : List (String × TagVal) :=
-  ups.foldl (fun t u => if u.name = markName ∧ u.value = emptyStr then t else upsert t u) tags
+def applyUpdates (pol : Policy) (tags : List (String × TagVal)) (ups : List Update) : List (String × TagVal) :=
+  ups.foldl (fun t u => if u.name = markName ∧ u.value = emptyStr then t else upsert pol t u) tags
 
 /-- `max([first] + rest)` -/
 def maxFrom (m : Rat) : List Rat → Rat
@@ -82,13 +103,13 @@ def latestTagTime (tags : List (String × TagVal)) : Rat :=
   | t :: ts => maxFrom t ts
 
 /-- `latest_persisted_tick_time is None or latest_tag_tick_time - latest_persisted_tick_time > interval` -/
-def thresholdExceeded (interval : Option Rat) (L : Option Rat) (latest : Rat) : Bool :=
+def thresholdExceeded (pol : Policy) (interval : Option Rat) (L : Option Rat) (latest : Rat) : Bool :=
   match L with
   | none => true
   | some l =>
     match interval with
     | none => false               -- x > inf is False
-    | some d => d < latest - l
+    | some d => if pol.strict then d < latest - l else d ≤ latest - l
 
 /-- tags newer than the last persisted batch -/
 def toPersist (tags : List (String × TagVal)) (L : Option Rat) : List (String × TagVal) :=
@@ -104,9 +125,9 @@ deriving DecidableEq, Repr
 
 /-- `_persist_tag_values` for an active run `rid` with `latest_persisted_tick_time = L`.
     Returns the new `latest_persisted_tick_time` and the rows. -/
-def persist (interval : Option Rat) (entries : List String) (rid : Nat)
+def persist (pol : Policy) (interval : Option Rat) (entries : List String) (rid : Nat)
     (tags : List (String × TagVal)) (L : Option Rat) : Option Rat × Out :=
-  if thresholdExceeded interval L (latestTagTime tags) then
+  if thresholdExceeded pol interval L (latestTagTime tags) then
     match toPersist tags L with
     | [] => (L, .valueError)
     | p :: ps =>
@@ -121,6 +142,7 @@ inductive Op where
   | newRun                                                     -- RunStartedMsg with a fresh run id
   | stopRun                                                    -- RunStoppedMsg for the active run
   | tags (msgRun : Option Nat) (ups : List Update)             -- TagsUpdatedMsg(run_id = ordinal or None)
+  | reconnect                                                  -- engine_disconnected, then RegisterEngineMsg
 
 def step (s : State) : Op → State × Out
   | .uod readings interval => ({ s with readings := readings, interval := interval }, .skipped)
@@ -128,14 +150,18 @@ def step (s : State) : Op → State × Out
     -- run_started: (the previous run, if any, is stored and reset;) run_data = RunData.empty; create_plot_log
     ({ s with run := some (s.nextRun, none), nextRun := s.nextRun + 1, entries := s.readings }, .skipped)
   | .stopRun => ({ s with run := none }, .skipped)
+  | .reconnect =>
+    -- a new EngineData: nothing known about tags, readings or the interval; the run id comes back from the
+    -- RecentEngines row, latest_persisted_tick_time does not
+    ({ s with tags := [], readings := [], interval := none, run := s.run.map (fun p => (p.1, none)) }, .skipped)
   | .tags msgRun ups =>
     match s.run, msgRun with
     | none, some _ => (s, .skipped)       -- "belongs to run … but there is no active run"
     | some _, none => (s, .skipped)       -- "… but the current run is …"
-    | none, none => ({ s with tags := applyUpdates s.tags ups }, .skipped)   -- upsert only; `_persist` returns at once
+    | none, none => ({ s with tags := applyUpdates s.pol s.tags ups }, .skipped)   -- upsert only; `_persist` returns at once
     | some (rid, L), some _ =>            -- note: the two ids are not compared any further
-      let tags' := applyUpdates s.tags ups
-      let (L', out) := persist s.interval s.entries rid tags' L
+      let tags' := applyUpdates s.pol s.tags ups
+      let (L', out) := persist s.pol s.interval s.entries rid tags' L
       ({ s with tags := tags', run := some (rid, L') }, out)
 
 /-- All rows written while handling a list of messages. -/
@@ -154,7 +180,7 @@ def runOps (s : State) : List Op → State × List Row
     last batch. -/
 def persistMutant (interval : Option Rat) (entries : List String) (rid : Nat)
     (tags : List (String × TagVal)) (L : Option Rat) : Option Rat × Out :=
-  if thresholdExceeded interval L (latestTagTime tags) then
+  if thresholdExceeded asIs interval L (latestTagTime tags) then
     match tags with
     | [] => (L, .valueError)
     | p :: ps =>
@@ -168,7 +194,7 @@ def stepMutant (s : State) : Op → State × Out
   | .tags (some m) ups =>
     match s.run with
     | some (rid, L) =>
-      let tags' := applyUpdates s.tags ups
+      let tags' := applyUpdates s.pol s.tags ups
       let (L', out) := persistMutant s.interval s.entries rid tags' L
       ({ s with tags := tags', run := some (rid, L') }, out)
     | none => step s (.tags (some m) ups)
